@@ -85,7 +85,14 @@ fn main() -> ExitCode {
 
     // an option is a single word: a whole query passed as one argument may well contain the text of
     // an option (`... where name = 'help'`)
-    let is_option_word = |arg: &str| !arg.contains(char::is_whitespace);
+    // (and a word that merely contains the text of an option, such as the column `exif_version`, is not one:
+    // an option starts with a dash or a slash, or is the bare word)
+    let is_option_word = |arg: &str| {
+        !arg.contains(char::is_whitespace)
+            && (arg.starts_with('-')
+                || arg.starts_with('/')
+                || ["version", "help", "nocolor", "no-color"].contains(&arg))
+    };
 
     if is_option_word(&first_arg) && (first_arg.contains("version") || first_arg.starts_with("-v")) {
         short_usage_info(no_color);
